@@ -587,17 +587,19 @@ theorem interleaving_prefix {V R : Type} (prog : Nat → List (Act V R))
 correspondence harness diffs against go-cty (`Lemmas/d20Conc.lean`). -/
 
 open Conc in
-/-- **Every API entry point of the model but six has an empty write set** — in every
+/-- **Every API entry point of the model but seven has an empty write set** — in every
 state, whatever its arguments: constructors, accessors, operation methods, `Copy`,
 `Values`, `Has`, `Length`, path helpers, `PathSet.List/Has`, the first callback
-invocation of `Walk`.  The six: `NumberVal(*big.Float)` and `cty.Tuple([]Type)` (take
-ownership of the caller's object — documented), `ValueSet.Add/Remove`, `PathSet.Add`
-(mutating methods of helper sets, documented as not concurrency-safe) and the
-continuation of a running `Walk` (appends to that walk's own path buffer). -/
+invocation of `Walk`.  The seven: `NumberVal(*big.Float)` and `cty.Tuple([]Type)` (take
+ownership of the caller's object — documented), `ValueSet.Add/Remove`,
+`PathSet.Add/Remove` (mutating methods of helper sets, documented as not
+concurrency-safe) and the continuation of a running `Walk` (appends to that walk's
+own path buffer). -/
 theorem api_write_set_empty (c : Api) :
     (readOnlyApi c = true ∧ ∀ st x, wset st (.api c) x = false) ∨
     (∃ g, c = .numberVal g) ∨ (∃ g, c = .tupleType g) ∨ (∃ g v h, c = .vsAdd g v h) ∨
-    (∃ g v h, c = .vsRemove g v h) ∨ (∃ g p h, c = .psAdd g p h) ∨ (∃ w, c = .walkNext w) := by
+    (∃ g v h, c = .vsRemove g v h) ∨ (∃ g p h, c = .psAdd g p h) ∨ (∃ g p h, c = .psRemove g p h) ∨
+    (∃ w, c = .walkNext w) := by
   cases hc : readOnlyApi c with
   | true => exact .inl ⟨rfl, wset_readOnly hc⟩
   | false =>
